@@ -210,6 +210,88 @@ func walkLoop(init ast.Stmt, cond ast.Expr, post ast.Stmt, walk func(ast.Node, i
 	}
 }
 
+// timeFlow says where the value of a time.Now()/Since()/Until() call goes: "telemetry" when the call is directly an
+// argument of a function of package telemetry; otherwise, when it is assigned to a variable, the sorted list of
+// everything that consumes that variable in the same function (callee names, `&v`, assignment targets); "expr:…"
+// for any other direct use.  A wall-clock value may reach telemetry and log lines only.
+func timeFlow(c *Ctx, p *packages.Package, parents map[ast.Node]ast.Node, sel *ast.SelectorExpr) string {
+	var call ast.Node = parents[sel] // the CallExpr time.Now()
+	if _, ok := call.(*ast.CallExpr); !ok {
+		return "expr:value-of-func"
+	}
+	isTelemetry := func(ce *ast.CallExpr) bool {
+		if fs, ok := ce.Fun.(*ast.SelectorExpr); ok {
+			if id, ok := fs.X.(*ast.Ident); ok {
+				if pn, ok := p.TypesInfo.Uses[id].(*types.PkgName); ok && strings.HasSuffix(pn.Imported().Path(), "/telemetry") {
+					return true
+				}
+			}
+		}
+		return false
+	}
+	par := parents[call]
+	switch x := par.(type) {
+	case *ast.CallExpr:
+		if isTelemetry(x) {
+			return "telemetry"
+		}
+		return "expr:arg-of-" + calleeName(c, x)
+	case *ast.AssignStmt, *ast.ValueSpec:
+		var names []*ast.Ident
+		if as, ok := x.(*ast.AssignStmt); ok {
+			for _, l := range as.Lhs {
+				if id, ok := l.(*ast.Ident); ok {
+					names = append(names, id)
+				}
+			}
+		} else {
+			names = x.(*ast.ValueSpec).Names
+		}
+		if len(names) != 1 {
+			return "expr:multi-assign"
+		}
+		obj := p.TypesInfo.Defs[names[0]]
+		if obj == nil {
+			obj = p.TypesInfo.Uses[names[0]]
+		}
+		// the enclosing function body
+		var fn ast.Node = par
+		for parents[fn] != nil {
+			fn = parents[fn]
+		}
+		var consumers []string
+		ast.Inspect(fn, func(n ast.Node) bool {
+			id, ok := n.(*ast.Ident)
+			if !ok || p.TypesInfo.Uses[id] != obj {
+				return true
+			}
+			switch u := parents[id].(type) {
+			case *ast.CallExpr:
+				if isTelemetry(u) {
+					consumers = append(consumers, "telemetry")
+				} else {
+					consumers = append(consumers, "arg-of-"+calleeName(c, u))
+				}
+			case *ast.SelectorExpr:
+				if ce, ok := parents[u].(*ast.CallExpr); ok && ce.Fun == u {
+					consumers = append(consumers, "method-"+u.Sel.Name)
+				} else {
+					consumers = append(consumers, "field-"+u.Sel.Name)
+				}
+			case *ast.UnaryExpr:
+				consumers = append(consumers, "addr-taken")
+			default:
+				consumers = append(consumers, fmt.Sprintf("in-%T", u))
+			}
+			return true
+		})
+		sort.Strings(consumers)
+		return "var " + names[0].Name + " -> " + strings.Join(consumers, ",")
+	default:
+		return fmt.Sprintf("expr:in-%T", par)
+	}
+}
+
 func typeStr(t types.Type) string {
 	return types.TypeString(t, func(p *types.Package) string { return p.Name() })
 }
@@ -259,6 +341,22 @@ func init() {
 						}
 					}
 					use := func(kind string) { uses[[3]string{relPkg, fn, kind}]++ }
+					// parent of every node of the declaration (to see where a wall-clock value flows)
+					parents := map[ast.Node]ast.Node{}
+					{
+						var stack []ast.Node
+						ast.Inspect(root, func(n ast.Node) bool {
+							if n == nil {
+								stack = stack[:len(stack)-1]
+								return true
+							}
+							if len(stack) > 0 {
+								parents[n] = stack[len(stack)-1]
+							}
+							stack = append(stack, n)
+							return true
+						})
+					}
 					// statement following each range statement in its statement list
 					nextOf := map[*ast.RangeStmt]ast.Stmt{}
 					ast.Inspect(root, func(n ast.Node) bool {
@@ -329,6 +427,7 @@ func init() {
 										switch s.Sel.Name {
 										case "Now", "Since", "Until":
 											use("time")
+											use("time.flow:" + timeFlow(c, p, parents, s))
 										case "Unix", "UnixMilli", "UnixMicro", "Local", "LoadLocation", "LoadLocationFromTZData", "Parse", "ParseInLocation":
 											// time.Unix* return times in time.Local; Parse resolves zone abbreviations against Local:
 											// anything rendered from them depends on the process's time zone
